@@ -52,7 +52,9 @@ Deliverables, all written to {out}/ (create it):
                handling see the tests at the bottom of {wt}/src/mechfs.rs).
 - notes.md   : what you changed and why it breaks the property, exactly what is needed for it to manifest, and the commands you ran
                with their results (demo on the unmodified tree, demo with the patch, the full suite with the patch).
-When you are done, clean the worktree: run `git -C {wt} checkout -- .` and delete
+When you are done, clean the worktree: run `git -C {wt} checkout -- src machines tests docs` (NOT `git checkout -- .` and never `git stash`:
+both would revert {wt}/.cargo/config.toml, which carries the offline / no-debuginfo build settings — if that happens every build
+balloons to 10 GB and the shared disk fills up) and delete
 {wt}/tests/seed_demo.rs at the end; the patch file is what counts.
 
 Final answer: a short summary (file/function changed, what input manifests it, the three command results).""")
